@@ -20,13 +20,19 @@ CellsEnv ==
   /\ Check("converted", Ev.status = "ok")
   /\ Check("typed_cells_canonical", \A k \in 1..Len(Ev.cells) : Ev.cells[k].seen = Canon(Ev.cells[k].cell))
 \* "matrix": one workbook content through every format x delivery x file_type
+Ordered(r) == r.f # "dict_rows"
 MatrixEnv ==
   /\ Check("every_channel_in_matrix", \A k \in 1..Len(Ev.results) : <<Ev.results[k].f, Ev.results[k].d, Ev.results[k].ft>> \in Matrix)
   /\ Check("matrix_covered", Len(Ev.results) >= 2)
   /\ Check("all_channels_converted_alike", \A j, k \in 1..Len(Ev.results) : Ev.results[j].status = Ev.results[k].status)
-  /\ Check("same_xform_everywhere", \A j, k \in 1..Len(Ev.results) : Ev.results[j].xform = Ev.results[k].xform)
+  \* (channels that carry the column order agree byte for byte; the rows-only dict agrees up to the order of choice columns)
+  /\ Check("same_xform_everywhere", \A j, k \in 1..Len(Ev.results) :
+              (Ordered(Ev.results[j]) /\ Ordered(Ev.results[k])) => Ev.results[j].xform = Ev.results[k].xform)
+  /\ Check("same_xform_up_to_choice_column_order", \A j, k \in 1..Len(Ev.results) : Ev.results[j].xform_canon = Ev.results[k].xform_canon)
   /\ Check("same_warnings_everywhere", \A j, k \in 1..Len(Ev.results) : Ev.results[j].warnings = Ev.results[k].warnings)
-  /\ Check("same_itemsets_everywhere", \A j, k \in 1..Len(Ev.results) : Ev.results[j].itemsets = Ev.results[k].itemsets)
+  /\ Check("same_itemsets_everywhere", \A j, k \in 1..Len(Ev.results) :
+              (Ordered(Ev.results[j]) /\ Ordered(Ev.results[k])) => Ev.results[j].itemsets = Ev.results[k].itemsets)
+  /\ Check("same_itemsets_up_to_column_order", \A j, k \in 1..Len(Ev.results) : Ev.results[j].itemsets_canon = Ev.results[k].itemsets_canon)
 TInit == tid \in 1..Len(Traces) /\ l = 1 /\ sheet = <<>> /\ i = 1 /\ adj = 0 /\ kept = <<>> /\ stopped = TRUE
 TStep == /\ l <= Len(T)
          /\ CASE Ev.ev = "runs" -> RunsEnv [] Ev.ev = "cells" -> CellsEnv [] Ev.ev = "matrix" -> MatrixEnv [] OTHER -> FALSE
